@@ -2,6 +2,9 @@ import TR.Lemmas.Coalesce
 import TR.Lemmas.CoalesceHandle
 import TR.Lemmas.CoalesceHerd
 import TR.Lemmas.CoalesceCaller
+import TR.Lemmas.CoalesceServices
+import TR.Lemmas.CoalesceUnwind
+import TR.Lemmas.CoalesceOnce
 /-!
 # C11 — coalesce runs one inner call per key and shares its result with all waiters
 
@@ -18,8 +21,10 @@ Vocabulary (`TR.Lemmas.Coalesce`): `LiveLeader s c key k` — caller `c` made in
 `k` for `key` and its future still exists; `LiveWaiter s c key l` — caller `c` found `key`
 registered by leader `l` at `call()` time and its future still exists; `reg s key` — the
 entry of the `in_flight.requests` map; `Delivered log l key k r` — the log contains
-`inner_done l k ok|errN` of `l`'s call for `key` and `r` is that value with serial `k`;
-`Cancelled log l key k` — the log contains `inner_drop l k` or `inner_done l k panic`.
+`inner_done l k ok|errN` of `l`'s call for `key`, `r` is that value with serial `k`, and `l` itself
+returned it (`result l r`); `Cancelled log l key k` — the log contains `inner_drop l k`, or
+`inner_done l k panic`, or `result l panic` after an `inner_done l k …` (the leader panicked while
+publishing the value: its `Clone` unwound). The two exclude each other (`delivered_cancelled_exclusive`).
 
 "Leader panics" covers both a panic of the leader's inner *future* (`inner=…:panic`; theorem
 `leader_panic_closes`) and a panic inside the inner service's `call()` itself
@@ -115,14 +120,14 @@ theorem leader_panic_closes (ops : List Op) (l key k : Nat) (hl : LiveLeader (ru
     (hp : CEv.result l .panic ∈ (stepS (run ops) (.poll l)).log) (hn : CEv.result l .panic ∉ (run ops).log) :
     reg (stepS (run ops) (.poll l)) key = none ∧
     lookup (stepS (run ops) (.poll l)).chan l = some .closed := by
-  rcases poll_leader_effect hl with h0 | ⟨o, ho, hlog, hreg, hch, _⟩
+  rcases poll_leader_effect hl with h0 | ⟨o, r, ch, _, _, hpc, hlog, hreg, hch, _⟩
   · rw [h0] at hp; exact absurd hp hn
   · rw [hlog] at hp
-    have : outRes k o = .panic := by
+    have : r = .panic := by
       rcases List.mem_append.mp hp with hp | hp
       · exact absurd hp hn
       · simp at hp; exact hp.symm
-    exact ⟨hreg, by rw [hch, outChan_of_panic k ho this]⟩
+    exact ⟨hreg, by rw [hch, hpc this]⟩
 
 /-- **Fails fast.** Once the channel of leader `l` is closed (by `leader_drop_closes` /
 `leader_panic_closes`), then after *any* further operations `mid` that do not poll or drop the
@@ -176,7 +181,7 @@ theorem key_free_again (ops : List Op) (l key k : Nat) (hl : LiveLeader (run ops
     (l ∈ (stepS (run ops) (.poll l)).gone → reg (stepS (run ops) (.poll l)) key = none) := by
   refine ⟨(drop_leader_effect hl).2.1, ?_⟩
   intro hg
-  rcases poll_leader_effect hl with h0 | ⟨o, _, _, hreg, _, _⟩
+  rcases poll_leader_effect hl with h0 | ⟨o, _, _, _, _, _, _, hreg, _, _⟩
   · rw [h0] at hg; exact absurd hg hl.2
   · exact hreg
 
@@ -427,8 +432,9 @@ theorem simultaneous_arrivals_one_leader (ops : List Op) (key c : Nat) (sc : Ste
 /-! ## no cancellation without a cancelled leader; the caller's handle does not matter -/
 
 /-- **`leader_cancelled` has a cause.** A request that was coalesced onto the call of leader `l` and received
-`err:leader_cancelled`: then `l`'s future was dropped unfinished (`inner_drop`) or its inner call panicked
-(`inner_done … panic`) — and that is in the log. -/
+`err:leader_cancelled`: then `l`'s future was dropped unfinished (`inner_drop`), or its inner call panicked
+(`inner_done … panic`), or `l` itself panicked in the poll that completed its inner call (`result l panic`: the
+`Clone` of the value unwound) — and that is in the log. -/
 theorem no_cancellation_without_cause (ops : List Op) (c key l : Nat)
     (hw : lookup (run ops).role c = some (.waiter key l))
     (hres : CEv.result c .cancelled ∈ (run ops).log) :
@@ -460,7 +466,255 @@ cloned (so that the handle is the only owner of the in-flight table apart from t
 `mem::replace` idiom or through a clone of a readied handle. The harness makes the real code go through all four. -/
 theorem caller_mode_irrelevant (c : Nat) (pre post : Kv) (v : String) :
     arriveOp c (pre ++ ("via", v) :: post) = arriveOp c (pre ++ post) :=
-  arriveOp_skip c pre post "via" v (by decide) (by decide) (by decide)
+  arriveOp_skip c pre post "via" v (by decide) (by decide) (by decide) (by decide)
+
+/-! ## a leader whose own poll panics — however its future is then destroyed
+
+A caller either owns the call future in the frame that polls it (a spawned task, an `async` block awaiting it, a
+`select!`/`join!` arm: the panic raised by the poll destroys the future WHILE IT UNWINDS, `std::thread::panicking()`
+is true in its destructors; harness: `arrive … unwind=1`), or catches the panic around the `poll` call alone and
+drops the future afterwards (the default). Likewise an unfinished future can go away because its owner panics for
+a reason of its own (`drop c unwind=1`) instead of by an orderly drop. The model has one `poll` and one `drop`
+operation and one answer — the property's: the leader is gone, so the key is free at once and its waiters fail with
+`leader_cancelled` at their next poll. -/
+
+/-- **The poll in which a leader's inner call panics.** Leader `l` of `key` is alive, its inner call `k` is due and
+scripted to panic. That one poll logs `inner_done l k panic`, `result l panic`, unregisters the key, closes the
+channel, and the leader's future is gone; a request `c'` for the key arriving at once leads a fresh call (the first
+new event is its `inner_call` with the next serial number) — nothing is left registered that it could join. -/
+theorem leader_panic_frees_key_at_once (ops : List Op) (l key k t c' : Nat) (sc sc' : Step)
+    (hs : (run ops).svcGone = false) (hl : LiveLeader (run ops) l key k)
+    (hd : lookup (run ops).doneAt l = some t) (hsc : lookup (run ops).script l = some sc)
+    (hdue : (run ops).now ≥ t) (hp : sc.out = .panic)
+    (hc' : lookup (run ops).role c' = none) :
+    let s := run (ops ++ [.poll l])
+    s.log = (run ops).log ++ [.innerDone l key k .panic, .result l .panic] ∧
+    reg s key = none ∧ lookup s.chan l = some .closed ∧ l ∈ s.gone ∧
+    (stepS s (.arrive c' key sc' false)).log = s.log ++ [.innerCall c' key s.serial] := by
+  intro s
+  have hs' : s = emit (retire (run ops) l key .closed) [.innerDone l key k .panic, .result l .panic] := by
+    show run (ops ++ [.poll l]) = _
+    rw [run_append]; exact poll_leader_panics hl hd hsc hdue hp
+  have hreg : reg s key = none := by
+    rw [hs']; show regOf ((key, none) :: (run ops).inflight) key = none
+    rw [regOf_cons]; simp
+  refine ⟨by rw [hs']; rfl, hreg, by rw [hs']; exact lookup_cons_self .., ?_, ?_⟩
+  · rw [hs']; show l ∈ l :: (run ops).gone; simp
+  · have hsg : (run (ops ++ [.poll l])).svcGone = false := by show s.svcGone = false; rw [hs']; exact hs
+    have hro : lookup (run (ops ++ [.poll l])).role c' = none := by show lookup s.role c' = none; rw [hs']; exact hc'
+    exact (fresh_call_when_free (ops ++ [.poll l]) c' key sc' hsg hro hreg).1
+
+/-- **A leader that panics while publishing its result.** Leader `l` of `key` is alive, its inner call `k` is due
+with a value (ok or an error) whose `Clone` panics (`arrive … clonepanic=1`): the leader clones its result for the
+waiters, that unwinds out of its poll — the leading request panics after its inner call has finished. The poll logs
+`inner_done l k <outcome>`, `result l panic`, unregisters the key, closes the channel without a value, and a request
+arriving at once leads a fresh call: the same as when the inner call itself panics. -/
+theorem leader_clone_panic_frees_key_at_once (ops : List Op) (l key k t c' : Nat) (sc sc' : Step)
+    (hs : (run ops).svcGone = false) (hl : LiveLeader (run ops) l key k)
+    (hd : lookup (run ops).doneAt l = some t) (hsc : lookup (run ops).script l = some sc)
+    (hdue : (run ops).now ≥ t) (hb : (run ops).bomb.contains l = true)
+    (ho : sc.out ≠ .never ∧ sc.out ≠ .panic)
+    (hc' : lookup (run ops).role c' = none) :
+    let s := run (ops ++ [.poll l])
+    s.log = (run ops).log ++ [.innerDone l key k sc.out, .result l .panic] ∧
+    reg s key = none ∧ lookup s.chan l = some .closed ∧ l ∈ s.gone ∧
+    (stepS s (.arrive c' key sc' false)).log = s.log ++ [.innerCall c' key s.serial] := by
+  intro s
+  have hs' : s = emit (retire (run ops) l key .closed) [.innerDone l key k sc.out, .result l .panic] := by
+    show run (ops ++ [.poll l]) = _
+    rw [run_append]; exact poll_leader_clone_panics hl hd hsc hdue hb ho
+  have hreg : reg s key = none := by
+    rw [hs']; show regOf ((key, none) :: (run ops).inflight) key = none
+    rw [regOf_cons]; simp
+  refine ⟨by rw [hs']; rfl, hreg, by rw [hs']; exact lookup_cons_self .., ?_, ?_⟩
+  · rw [hs']; show l ∈ l :: (run ops).gone; simp
+  · have hsg : (run (ops ++ [.poll l])).svcGone = false := by show s.svcGone = false; rw [hs']; exact hs
+    have hro : lookup (run (ops ++ [.poll l])).role c' = none := by show lookup s.role c' = none; rw [hs']; exact hc'
+    exact (fresh_call_when_free (ops ++ [.poll l]) c' key sc' hsg hro hreg).1
+
+/-- … and every waiter of a leader that panics in its poll — because its inner call panicked or because publishing
+the value did —, after *any* further operations that do not poll or drop the waiter itself, receives
+`err:leader_cancelled` at its very next poll. -/
+theorem panicked_leader_waiter_fails_at_next_poll (ops mid : List Op) (c key l k : Nat)
+    (hl : LiveLeader (run ops) l key k)
+    (hp : CEv.result l .panic ∈ (stepS (run ops) (.poll l)).log) (hn : CEv.result l .panic ∉ (run ops).log)
+    (hw : LiveWaiter (run ops) c key l)
+    (hmid : ∀ op ∈ mid, op ≠ .poll c ∧ op ≠ .drop c) :
+    (stepS (run (ops ++ .poll l :: mid)) (.poll c)).log
+      = (run (ops ++ .poll l :: mid)).log ++ [.result c .cancelled] := by
+  have hcl : c ≠ l := by
+    intro e; subst e; have := hl.1; rw [hw.1] at this; cases this
+  have e : ops ++ .poll l :: mid = (ops ++ [.poll l]) ++ mid := by simp
+  rw [e]
+  have hrun : run (ops ++ [.poll l]) = stepS (run ops) (.poll l) := by rw [run_append]; rfl
+  refine (leader_gone_fails_fast (ops ++ [.poll l]) mid c key l ?_ ?_ hmid).1
+  · rw [hrun]
+    refine ⟨stepS_role_mono _ _ hw.1, ?_⟩
+    intro hx
+    rcases stepS_gone _ _ _ (by rw [hw.1]; simp) hx with h | h | h
+    · exact hw.2 h
+    · cases h; exact hcl rfl
+    · cases h
+  · rw [hrun]; exact (leader_panic_closes ops l key k hl hp hn).2
+
+/-! ## a leader that completes: what it publishes is what its waiters receive -/
+
+/-- **The completing poll publishes the value.** Leader `l` of `key` is alive, its inner call `k` is due with
+outcome `o` (ok, error or panic) and its value can be cloned: that one poll logs `inner_done l k o` and the leader's
+own result, unregisters the key, and leaves in the channel exactly that value (`sent (ok k)` / `sent (inner kd k)`;
+closed for a panic). -/
+theorem leader_completion_publishes (ops : List Op) (l key k t : Nat) (sc : Step)
+    (hl : LiveLeader (run ops) l key k)
+    (hd : lookup (run ops).doneAt l = some t) (hsc : lookup (run ops).script l = some sc)
+    (hdue : (run ops).now ≥ t) (ho : sc.out ≠ .never) (hb : (run ops).bomb.contains l = false) :
+    let s := stepS (run ops) (.poll l)
+    s.log = (run ops).log ++ [.innerDone l key k sc.out, .result l (outRes k sc.out)] ∧
+    reg s key = none ∧ lookup s.chan l = some (outChan k sc.out) ∧ l ∈ s.gone := by
+  intro s
+  have hs' : s = emit (retire (run ops) l key (outChan k sc.out))
+      [.innerDone l key k sc.out, .result l (outRes k sc.out)] := poll_leader_completes hl hd hsc hdue ho hb
+  refine ⟨by rw [hs']; rfl, ?_, by rw [hs']; exact lookup_cons_self .., ?_⟩
+  · rw [hs']; show regOf ((key, none) :: (run ops).inflight) key = none
+    rw [regOf_cons]; simp
+  · rw [hs']; show l ∈ l :: (run ops).gone; simp
+
+/-- **Every waiter receives the leader's value.** … and a live waiter `c` of that leader, after the leader's
+completing poll and *any* further operations that do not poll or drop `c` itself, receives at its very next poll the
+value the leader's inner call produced — ok or error, with the leader's serial number. End to end: "every request
+arriving while it is in flight receives a clone of that call's result, success or error". -/
+theorem waiter_receives_leader_value (ops mid : List Op) (c key l k t : Nat) (sc : Step)
+    (hl : LiveLeader (run ops) l key k)
+    (hd : lookup (run ops).doneAt l = some t) (hsc : lookup (run ops).script l = some sc)
+    (hdue : (run ops).now ≥ t) (ho : sc.out = .ok ∨ ∃ kd, sc.out = .err kd)
+    (hb : (run ops).bomb.contains l = false)
+    (hw : LiveWaiter (run ops) c key l)
+    (hmid : ∀ op ∈ mid, op ≠ .poll c ∧ op ≠ .drop c) :
+    (stepS (run (ops ++ .poll l :: mid)) (.poll c)).log
+      = (run (ops ++ .poll l :: mid)).log ++ [.result c (outRes k sc.out)] := by
+  have hcl : c ≠ l := by
+    intro e; subst e; have := hl.1; rw [hw.1] at this; cases this
+  have hne : sc.out ≠ .never := by
+    rcases ho with h | ⟨kd, h⟩ <;> rw [h] <;> intro e <;> cases e
+  have hsent : outChan k sc.out = .sent (outRes k sc.out) := by
+    rcases ho with h | ⟨kd, h⟩ <;> rw [h] <;> rfl
+  have e : ops ++ .poll l :: mid = (ops ++ [.poll l]) ++ mid := by simp
+  rw [e]
+  have hrun : run (ops ++ [.poll l]) = stepS (run ops) (.poll l) := by rw [run_append]; rfl
+  refine completed_leader_waiter_resolves (ops ++ [.poll l]) mid c key l _ ?_ ?_ hmid
+  · rw [hrun]
+    refine ⟨stepS_role_mono _ _ hw.1, ?_⟩
+    intro hx
+    rcases stepS_gone _ _ _ (by rw [hw.1]; simp) hx with h | h | h
+    · exact hw.2 h
+    · cases h; exact hcl rfl
+    · cases h
+  · rw [hrun, ← hsent]; exact (leader_completion_publishes ops l key k t sc hl hd hsc hdue hne hb).2.2.1
+
+/-- **What the caller does with the future, and with what it returns, does not matter.** The request an `arrive`
+line stands for is the same with and without the words `unwind=…` (the future is destroyed during the unwinding of
+a panic raised by its own poll, instead of after that panic was caught), `eclone=…` (the caller looks at a clone of
+the result), `keep=…` (it holds on to the finished future), `coop=…` / `burn=…` (cooperative budget), `via=…`: the
+model — and every theorem of this file — gives the same answer in all these cases. The harness makes the real code
+go through them. -/
+theorem caller_behaviour_irrelevant (c : Nat) (pre post : Kv) (a v : String)
+    (ha : a = "unwind" ∨ a = "eclone" ∨ a = "keep" ∨ a = "coop" ∨ a = "burn" ∨ a = "via") :
+    arriveOps c (pre ++ (a, v) :: post) = arriveOps c (pre ++ post) := by
+  rcases ha with h | h | h | h | h | h <;> subst h <;>
+    exact arriveOps_skip c pre post _ v (by decide) (by decide) (by decide) (by decide) (by decide)
+
+/-- … and a future destroyed because its owner panics (`drop c unwind=1`) is a dropped future like any other:
+the words after the caller's number do not reach the model. -/
+theorem unwinding_drop_is_a_drop (c : String) (rest : List String) :
+    parseOp ("drop" :: c :: rest) = some (.drop (c.toNat?.getD 0)) := rfl
+
+/-! ## every request is answered at most once; a call that delivered was not cancelled -/
+
+/-- **At most one answer per request.** In every reachable log the number of `result c …` events of a caller is
+at most one … -/
+theorem at_most_one_result (ops : List Op) (c : Nat) : nres c (run ops).log ≤ 1 :=
+  (rinv_reachable ops).atMost c
+
+/-- … so two answers of one caller found anywhere in the log are the same answer, -/
+theorem result_unique (ops : List Op) (c : Nat) (r r' : Res)
+    (h : CEv.result c r ∈ (run ops).log) (h' : CEv.result c r' ∈ (run ops).log) : r = r' := by
+  by_cases hne : r = r'
+  · exact hne
+  · have h2 := nres_two_of_mem h h' hne
+    have h1 := at_most_one_result ops c
+    omega
+
+/-- … a request whose future still exists has not been answered, and a leader that was dropped unfinished is never
+answered (neither before nor after the drop). -/
+theorem no_answer_while_pending_or_dropped (ops : List Op) (c : Nat) (r : Res) :
+    (c ∉ (run ops).gone → CEv.result c r ∉ (run ops).log) ∧
+    (∀ key k, CEv.innerDrop c key k ∈ (run ops).log → CEv.result c r ∉ (run ops).log) := by
+  have ri := rinv_reachable ops
+  constructor
+  · intro hc hm
+    have := nres_pos_of_mem hm
+    rw [ri.liveNone c hc] at this; omega
+  · intro key k hd hm
+    have := nres_pos_of_mem hm
+    rw [(ri.dropNone c key k hd).2] at this; omega
+
+/-- **Delivered and cancelled exclude each other.** For one inner call `k` of leader `l`: the log never shows both
+that `l` delivered a value (its inner call finished ok / with an error and `l` itself returned that value) and that `l`
+was cancelled (dropped unfinished, inner call panicked, or `l` panicked while publishing). Hence in
+`waiter_gets_leader_result` exactly one of the two alternatives holds: a waiter is told `leader_cancelled` only if its
+leader delivered nothing, and receives a value only from a leader that was not cancelled. -/
+theorem delivered_cancelled_exclusive (ops : List Op) (l key k : Nat) (r : Res) :
+    ¬ (Delivered (run ops).log l key k r ∧ Cancelled (run ops).log l key k) := by
+  rintro ⟨hd, hc⟩
+  have ri := rinv_reachable ops
+  -- the leader's own answer, which is a value, not `panic`
+  have hv : ∃ v, v ≠ Res.panic ∧ CEv.result l v ∈ (run ops).log := by
+    rcases hd with ⟨_, _, h⟩ | ⟨kd, _, _, h⟩
+    · exact ⟨.ok k, (fun e => by cases e), h⟩
+    · exact ⟨.inner kd k, (fun e => by cases e), h⟩
+  obtain ⟨v, hvp, hv⟩ := hv
+  rcases hc with h | h | ⟨h, _⟩
+  · exact (no_answer_while_pending_or_dropped ops l v).2 key k h hv
+  · exact hvp (result_unique ops l v .panic hv (ri.donePanic l key k h))
+  · exact hvp (result_unique ops l v .panic hv h)
+
+/-! ## several services built from one layer value (or from clones of it) share nothing
+
+`arrive … svc=<i>`: the model's key is `svcKey i key` (an injective pairing, `svcKey_inj`), i.e. the family of
+services is this model over the key space (service, key) — see `TR.Model.Coalesce`. What that means: -/
+
+/-- **An operation on one service leaves every other service alone.** If the operation is not about a key of
+service `i` (it is the arrival of a request to another service, or the poll / drop of a caller that arrived at
+another service, or time passing, or the handles being dropped), then every entry of service `i`'s in-flight
+table, and the numbers of inner calls started and ended for every key of service `i` in the log, are after the
+step what they were before. -/
+theorem service_steps_are_independent (ops : List Op) (op : Op) (i : Nat)
+    (hop : ∀ key, opKey (run ops) op ≠ some (svcKey i key)) (key : Nat) :
+    reg (stepS (run ops) op) (svcKey i key) = reg (run ops) (svcKey i key) ∧
+    traffic (svcKey i key) (stepS (run ops) op).log = traffic (svcKey i key) (run ops).log :=
+  ⟨step_other_key _ op _ (hop key), step_other_key_traffic _ op _ (hop key)⟩
+
+/-- **Services built from one layer do not share calls.** Whatever is in flight on service `i` — in particular a
+call for the very same key —, a request `c` for `key` arriving at service `j ≠ i` while `key` is free THERE leads a
+fresh inner call of its own in the step of its arrival, and service `i`'s table and traffic are untouched by it. -/
+theorem services_do_not_share (ops : List Op) (i j key c : Nat) (sc : Step) (hij : i ≠ j)
+    (hs : (run ops).svcGone = false) (hc : lookup (run ops).role c = none)
+    (hfree : reg (run ops) (svcKey j key) = none) :
+    let s' := stepS (run ops) (.arrive c (svcKey j key) sc false)
+    s'.log = (run ops).log ++ [.innerCall c (svcKey j key) (run ops).serial] ∧
+    LiveLeader s' c (svcKey j key) (run ops).serial ∧
+    ∀ key', reg s' (svcKey i key') = reg (run ops) (svcKey i key') ∧
+            traffic (svcKey i key') s'.log = traffic (svcKey i key') (run ops).log := by
+  intro s'
+  obtain ⟨h1, h2⟩ := fresh_call_when_free ops c (svcKey j key) sc hs hc hfree
+  refine ⟨h1, h2, fun key' => ?_⟩
+  refine service_steps_are_independent ops _ i (fun k => ?_) key'
+  show some (svcKey j key) ≠ some (svcKey i k)
+  intro e
+  exact svcKey_ne (Or.inl hij.symm) (Option.some.inj e)
+
+/-- the `svc=` word of an `arrive` line selects the service, and through it the model's key -/
+theorem arrive_line_key (c : Nat) (kv : Kv) :
+    ∃ sc cp, arriveOp c kv = .arrive c (svcKey (kv.nat "svc" 0) (kv.nat "key" 0)) sc cp := ⟨_, _, rfl⟩
 
 /-- two requests for key 7 coalesce (one inner call, serial 0, both get `ok:0`), key 8 runs
 its own call concurrently and fails: its waiter gets the same error with the same serial 1 -/
@@ -547,5 +801,40 @@ example :
          .innerDone 3 7 1 (.err 2), .result 3 (.inner 2 1)] ∧
     arriveOp 4 [("key", "7"), ("via", "template"), ("inner", "5:ok")] = arriveOp 4 [("key", "7"), ("inner", "5:ok")] := by
   exact ⟨by decide, caller_mode_irrelevant 4 [("key", "7")] [("inner", "5:ok")] "template"⟩
+
+/-- the hypotheses of `leader_panic_frees_key_at_once` / `panicked_leader_waiter_fails_at_next_poll` are met by a
+concrete history (leader 1 due to panic, live waiter 2), and the run: the leader's poll, the waiter's poll, a new
+request that leads call number 1 -/
+example :
+    let ops := [Op.arrive 1 7 ⟨0, .panic⟩ false, .arrive 2 7 ⟨0, .ok⟩ false, .poll 2]
+    lookup (run ops).role 1 = some (.leader 7 0) ∧ 1 ∉ (run ops).gone ∧
+    lookup (run ops).role 2 = some (.waiter 7 1) ∧ 2 ∉ (run ops).gone ∧
+    lookup (run ops).doneAt 1 = some 0 ∧ lookup (run ops).script 1 = some ⟨0, .panic⟩ ∧
+    (run (ops ++ [.poll 1, .arrive 3 7 ⟨0, .ok⟩ false, .poll 2])).log
+      = [.innerCall 1 7 0, .innerDone 1 7 0 .panic, .result 1 .panic, .innerCall 3 7 1, .result 2 .cancelled] := by
+  decide
+
+/-- the hypotheses of `leader_clone_panic_frees_key_at_once` are met by a concrete history (the value of leader 1's
+call cannot be cloned; live waiter 2), and the run: the leader's poll panics after `inner_done … ok`, a new request
+leads call number 1, the waiter is cancelled (an `arrive … clonepanic=1` line stands for `bomb c; arrive c …`: `arriveOps`) -/
+example :
+    let ops := [Op.bomb 1, .arrive 1 7 ⟨0, .ok⟩ false, .arrive 2 7 ⟨0, .ok⟩ false, .poll 2]
+    lookup (run ops).role 1 = some (.leader 7 0) ∧ 1 ∉ (run ops).gone ∧ (run ops).bomb.contains 1 = true ∧
+    lookup (run ops).role 2 = some (.waiter 7 1) ∧ 2 ∉ (run ops).gone ∧
+    lookup (run ops).doneAt 1 = some 0 ∧ lookup (run ops).script 1 = some ⟨0, .ok⟩ ∧
+    (run (ops ++ [.poll 1, .arrive 3 7 ⟨0, .ok⟩ false, .poll 2])).log
+      = [.innerCall 1 7 0, .innerDone 1 7 0 .ok, .result 1 .panic, .innerCall 3 7 1, .result 2 .cancelled] := by
+  decide
+
+/-- two services from one layer, the same key 7 on both: request 2 at service 1 leads its own call although call 0
+for key 7 is in flight on service 0; request 3 at service 0 coalesces onto call 0, request 4 at service 1 onto call 1;
+dropping leader 1 (service 0) cancels 3 and leaves service 1 alone -/
+example :
+    svcKey 0 7 ≠ svcKey 1 7 ∧
+    (run [.arrive 1 (svcKey 0 7) ⟨5, .ok⟩ false, .arrive 2 (svcKey 1 7) ⟨0, .err 3⟩ false,
+          .arrive 3 (svcKey 0 7) ⟨0, .ok⟩ false, .arrive 4 (svcKey 1 7) ⟨0, .ok⟩ false,
+          .drop 1, .poll 3, .poll 2, .poll 4]).log.map CEv.toEv
+      = [.innerCall 1 0, .innerCall 2 1, .innerDrop 1 0, .result 3 .cancelled,
+         .innerDone 2 1 (.err 3), .result 2 (.inner 3 1), .result 4 (.inner 3 1)] := by decide
 
 end TR.Props.C11
